@@ -8,9 +8,7 @@ package alert
 // was OK resume as OK)": what the service writes to the topic store for an event. The store's
 // transactions are atomic (C15 slice); this is the rule that decides, per collected event, which
 // single write the transaction contains.
-//@ func =(*github.com/influxdata/kapacitor/alert.Topics).Collect
-//@   trusted
-//@   modifies nothing
+// (Topics.Collect is under contract in package alert: it changes the topic registry only.)
 //@ func =(*github.com/influxdata/kapacitor/alert.Topics).Topic
 //@   trusted
 //@   modifies nothing
@@ -36,7 +34,7 @@ package alert
 // event stores its state; the result is the write's result.
 //@ func (*Service).Collect
 //@   props C08
-//@   requires s != nil && s.topics != nil && s.topicsStore != nil
+//@   requires s != nil && s.topics != nil && s.topics.topics != nil && s.topicsStore != nil
 //@   ensures [restore-failed] !called(Collect) ==> !called(clearHistory) && !called(persistEventState)
 //@   ensures [memory-first] called(Collect) && callresult(Collect, 0) != nil ==> result == callresult(Collect, 0) && !called(clearHistory) && !called(persistEventState)
 //@   ensures [ok-deletes] called(Collect) && callresult(Collect, 0) == nil && event.State.Level == 0 && s.PersistTopics ==> called(clearHistory) && !called(persistEventState)
